@@ -60,7 +60,7 @@ func c15family(thorough bool, add func(cfg *Config, bound int, maxExec int64, or
 			{dur(st("a"), 1500), rep(st("b"), 1000), st("c")},
 			{rep(dur(st("a"), 250), 1000), dur(st("b"), 1500), dur(st("c"), 250)},
 		} {
-			add(&Config{Steps: p, MaxActive: k, Stop: true}, 0, 600000, "C15")
+			add(&Config{Steps: p, MaxActive: k, Stop: true}, 0, 60000, "C15")
 		}
 	}
 	// preemptive exploration of the sharpest configuration: two parallel steps, limit 1, one retries
